@@ -46,6 +46,129 @@ func init() {
 	})
 }
 
+var sumHash = map[string]string{"rcproxy/core/pkg/hashkit.Hash": "rcproxy/core.VerifSpecHash"}
+
+func withSumHash(j *JobCfg) *JobCfg {
+	j.Redirect = sumHash
+	j.Name += "/H=spec"
+	return j
+}
+
+func noMapOrder(j *JobCfg) *JobCfg { j.MapOrderOff = true; return j }
+
+func sites(j *JobCfg, s ...string) *JobCfg { j.MapOrderSites = s; return j }
+
+const stubWorld = "socketpair/read/write/writev/close/epoll_ctl/eventfd modelled as in-memory byte queues per descriptor; time.Now = model clock advanced by 1µs per reading and by verifrt.Sleep; sync.Pool = LIFO free list; byteslice pool = LIFO per size class with stale contents; sync/atomic = plain operations (single event-loop goroutine); logging and prometheus calls are no-ops; go statements are not scheduled"
+
+func init() {
+	// ---------------- C06 ----------------
+	register(&CheckSpec{
+		ID:       "C06",
+		Patterns: []string{pkgCore},
+		Jobs: func(tier string) []*JobCfg {
+			var js []*JobCfg
+			ms := []string{"CRespCodec).MGet", "CRespCodec).Del", "CRespCodec).MSet"}
+			maxK, Ls := 3, []int64{0, 1, 3}
+			if tier == "thorough" {
+				maxK, Ls = 5, []int64{0, 1, 2, 3}
+			}
+			for kind := int64(0); kind < 3; kind++ {
+				for k := int64(1); k <= int64(maxK); k++ {
+					for _, L := range Ls {
+						if tier == "thorough" && k == 5 && L == 3 && kind != 0 {
+							continue
+						}
+						js = append(js, sites(withSumHash(job(pkgCore, "HarnessC06", kind, k, L, 1)), ms...))
+					}
+				}
+			}
+			js = append(js, sites(withSumHash(job(pkgCore, "HarnessC06", 2, 2, 1, 0)), ms...), sites(withSumHash(job(pkgCore, "HarnessC06", 2, 2, 2, 2)), ms...))
+			// the real CRC/hash-tag code instead of its specification
+			js = append(js, sites(job(pkgCore, "HarnessC06", 0, 2, 1, 0), ms...), sites(job(pkgCore, "HarnessC06", 0, 2, 3, 0), ms...), sites(job(pkgCore, "HarnessC06", 2, 2, 1, 1), ms...), sites(job(pkgCore, "HarnessC06", 1, 3, 1, 0), ms...))
+			if tier == "thorough" {
+				js = append(js, sites(job(pkgCore, "HarnessC06", 0, 3, 3, 0), ms...), sites(job(pkgCore, "HarnessC06", 1, 3, 2, 0), ms...), sites(job(pkgCore, "HarnessC06", 2, 3, 2, 1), ms...))
+			}
+			return js
+		},
+		Bounds: func(tier string) string {
+			if tier == "thorough" {
+				return "MGET/DEL/MSET with 1..5 keys, every key 0..3 arbitrary bytes (so duplicates, empty keys, {tags} and real slot collisions occur), values 0..2 bytes, any letter case of the command name; all iteration orders of the per-slot map (<=3 entries: all permutations, above: rotations) at the fragment builders"
+			}
+			return "MGET/DEL/MSET with 1..3 keys, every key 0, 1 or 3 arbitrary bytes (duplicates, empty keys, {tags}, slot collisions), values 0..2 bytes, any letter case; all iteration orders of the per-slot map at the fragment builders"
+		},
+		Assumptions: []string{"in the jobs marked H=spec hashkit.Hash is replaced by the key-slot specification (justified by C05); the other jobs run the real CRC code", "map iteration order is explored only inside CRespCodec.MGet/Del/MSet (insertion order elsewhere)"},
+		Stubs:       []string{stubWorld},
+		Outside:     []string{"key lists longer than the bound, keys longer than 3 bytes"},
+	})
+	// ---------------- C12 ----------------
+	register(&CheckSpec{
+		ID:       "C12",
+		Patterns: []string{pkgServer},
+		Jobs: func(tier string) []*JobCfg {
+			var js []*JobCfg
+			maxL := 9
+			if tier == "thorough" {
+				maxL = 13
+			}
+			for L := int64(1); L <= int64(maxL); L++ {
+				js = append(js, job(pkgServer, "HarnessC12", L, 0))
+			}
+			cutL := int64(7)
+			if tier == "thorough" {
+				cutL = 9
+			}
+			for cut := int64(1); cut < cutL; cut++ {
+				js = append(js, job(pkgServer, "HarnessC12", cutL, cut))
+			}
+			js = append(js, job(pkgServer, "HarnessC12Shape", 1, 1, 0), job(pkgServer, "HarnessC12Shape", 2, 2, 0), job(pkgServer, "HarnessC12Shape", 2, 1, 0), job(pkgServer, "HarnessC12Shape", 1, 2, 0))
+			if tier == "thorough" {
+				js = append(js, job(pkgServer, "HarnessC12Shape", 3, 2, 0), job(pkgServer, "HarnessC12Shape", 1, 3, 0), job(pkgServer, "HarnessC12Shape", 2, 2, 9), job(pkgServer, "HarnessC12Shape", 1, 1, 13))
+			}
+			return js
+		},
+		Bounds: func(tier string) string {
+			if tier == "thorough" {
+				return "every client input of 1..13 arbitrary bytes in one read; every input of 9 bytes in every two-read segmentation; GET-shaped requests whose count field (1..3 bytes), length fields (1..3 bytes), name (3 bytes) and key (1 byte) are arbitrary; then one well-formed request from a second client"
+			}
+			return "every client input of 1..9 arbitrary bytes in one read; every input of 7 bytes in every two-read segmentation; GET-shaped requests whose count field (1..2 bytes), length fields (1..2 bytes), name (3 bytes) and key (1 byte) are arbitrary; then one well-formed request from a second client"
+		},
+		Assumptions: []string{"oracle for 'a Redis server would reject it': a transcription of redis networking.c processMultibulkBuffer and util.c string2ll (as lenient as Redis); 'offending' input = refused by that model AND visibly malformed on a complete line or payload (so a proxy that waits for a line end is not blamed)", "every feasible Go panic inside repository code counts as a crash (the proxy has no recover and one event-loop goroutine)"},
+		Stubs:       []string{stubWorld},
+		Outside:     []string{"inputs longer than the bound; lengths/counts that need more digits than the shaped fields allow (integer overflow of 19+ digit lengths)"},
+	})
+	// ---------------- C17 ----------------
+	register(&CheckSpec{
+		ID:       "C17",
+		Patterns: []string{pkgServer, pkgCodec},
+		Jobs: func(tier string) []*JobCfg {
+			js := []*JobCfg{noMapOrder(job(pkgCodec, "HarnessC17Tables"))}
+			for L := int64(1); L <= 17; L++ {
+				js = append(js, job(pkgCodec, "HarnessC17Name", L))
+			}
+			maxN := int64(3)
+			if tier == "thorough" {
+				maxN = 5
+			}
+			for n := int64(0); n <= maxN; n++ {
+				js = append(js, job(pkgServer, "HarnessC17Admit", n, 0))
+			}
+			js = append(js, job(pkgServer, "HarnessC17Admit", 1, 1))
+			js = append(js, job(pkgServer, "HarnessC17Size", 3, 2, 16, 64), job(pkgServer, "HarnessC17Size", 9, 1, 16, 64), job(pkgServer, "HarnessC17Size", 1, 9, 16, 64))
+			js = append(js, job(pkgServer, "HarnessC17RspSize", 4, 5, 20), job(pkgServer, "HarnessC17RspSize", 0, 1, 12))
+			if tier == "thorough" {
+				js = append(js, job(pkgServer, "HarnessC17Admit", 2, 1), job(pkgServer, "HarnessC17Admit", 3, 1), job(pkgServer, "HarnessC17Size", 20, 12, 16, 96), job(pkgServer, "HarnessC17RspSize", 12, 5, 40))
+			}
+			return js
+		},
+		Bounds: func(tier string) string {
+			return "command names: EVERY byte string of length 1..17 with 0..6 arguments against Transform2Type; end to end: every documented command in any letter case plus 6 undocumented names, 0..3 (quick) / 0..5 (thorough) one-byte arguments, followed by a second request in the same read, with and without a configured password; size: two pipelined requests with the limit an arbitrary value in [16,64]; reply limit arbitrary in [5,20]"
+		},
+		Assumptions: []string{"documented set = rows marked Yes in docs/command.md (parsed at check time) plus AUTH", "arity oracle: an independent table of the documented protocol's arity classes (exact n / at least one / even), EVAL and EVALSHA need script, numkeys and a key"},
+		Stubs:       []string{stubWorld},
+		Outside:     []string{"limits outside the small range, multi-megabyte requests"},
+	})
+}
+
 func init() {
 	register(&CheckSpec{ID: "SMOKE", Patterns: []string{pkgServer},
 		Jobs: func(tier string) []*JobCfg { return []*JobCfg{job(pkgServer, "HarnessSmoke")} }})
